@@ -87,10 +87,20 @@ Proof.
   (* destination of the packet is this chain *)
   pose proof ST as (_ & Hj & _ & X & _).
   assert (DST : p_dst p = nJ).
-  { destruct (log_event_step nft_escrow mt_escrow ops n0 j (EDeliver p)) as (? & ? & ? & ? & ? & ? & ? & ? & _ & _) ; [|].
-    - admit_never.
-    - rewrite <- NJ. admit_never. }
-  admit_never.
+  { cbn [hexec exec] in X. apply msg_recv_app in X. destruct X as (_ & [(AP & _)|(DD & _)]).
+    - exfalso. apply T1. unfold nft_of. rewrite AP. exact T0.
+    - rewrite DD. exact NJ. }
+  pose proof ST1 as (_ & Hk & _ & _ & _).
+  assert (NSRC : noslash (p_src p)) by (rewrite <- NM; exact (NN _ _ _ Hk)).
+  assert (NDST : noslash nJ) by (rewrite <- NJ; exact (NN _ _ _ Hj)).
+  assert (DE : dest = nJ) by (rewrite <- DST, <- K2, QE; reflexivity).
+  subst dest. rewrite DST in CE.
+  destruct (PW _ _ _ Hk cl1 fp CP) as [(NF & ->)|(pp & bb & -> & PP & BB & LL)].
+  - destruct (voucher_native_inj nI nJ cl (p_src p) nJ cl1 NI NDST CL NSRC NDST NF CE) as (E1 & _ & E3).
+    subst cl1. exists k, pre1, post1, now1, sender, receiver, relay, contract, ck, ck', q, uri.
+    split; [exact ST1|]. split; [congruence|]. split; [congruence|]. split; [exact K4|].
+    split; [exact K3|]. split; [exact TK|exact POST].
+  - exfalso. exact (voucher_native_vs_path nI nJ cl (p_src p) nJ pp bb NI NDST CL NDST PP BB LL CE).
 Qed.
 
 End Exact.
